@@ -13,15 +13,23 @@ func defsC02(tier string) []*ph.Def {
 	for _, kind := range []ph.Kind{ph.StrS, ph.IntS, ph.FltS, ph.Map} {
 		for _, b := range bounds {
 			for mode := 0; mode < 3; mode++ {
-				for _, unknown := range []int{0, 2} {
-					d := &ph.Def{Mode: mode, Unknown: unknown, Root: ph.CmdDef{Name: "prog",
-						Opts: []ph.OptDef{
-							{Name: "m", Kind: kind, Min: b[0], Max: b[1]},
-							{Name: "x", Kind: ph.Bool},
-						},
-						Cmds: []*ph.CmdDef{{Name: "c"}},
-					}}
-					out = append(out, d)
+				unknowns := []int{0, 2}
+				ros := []bool{false}
+				if tier == "thorough" {
+					unknowns = []int{0, 1, 2}
+					ros = []bool{false, true}
+				}
+				for _, ro := range ros {
+					for _, unknown := range unknowns {
+						d := &ph.Def{Mode: mode, Unknown: unknown, RequireOrder: ro, Root: ph.CmdDef{Name: "prog",
+							Opts: []ph.OptDef{
+								{Name: "m", Kind: kind, Min: b[0], Max: b[1]},
+								{Name: "x", Kind: ph.Bool},
+							},
+							Cmds: []*ph.CmdDef{{Name: "c"}},
+						}}
+						out = append(out, d)
+					}
 				}
 			}
 		}
@@ -37,7 +45,7 @@ func init() {
 			"distinct_nontrivial = distinct (definition, argv) cases inside the specified territory",
 		defs:   defsC02,
 		alpha:  []string{"a", "5", "1.5", "k=v", "k=a=b", "=v", "1..3", "3..1", "", "-", "--", "--x", "-5", "c", "--m", "--m=a", "--m=5", "--m=k=v", "--m=k=w=z", "--m=1..3", "-m", "--zz"},
-		depthQ: 3, depthT: 4,
+		depthQ: 4, depthT: 4,
 		facets: ph.Facets{Err: true, ErrDetail: true, Remaining: true, Vals: true, Called: true, CalledAs: true},
 		extra: func(pc *parserCase, info specInfo) ([]string, []string) {
 			var cs []string
@@ -69,7 +77,7 @@ func init() {
 			}, []bool{false})
 		},
 		alpha:  []string{"--zz", "-z", "-az", "-zy", "--zz=1", "--a", "--s", "v", "c", "w", "p", "--", "--d"},
-		depthQ: 4, depthT: 5,
+		depthQ: 5, depthT: 6,
 		facets: ph.AllFacets,
 		extra: func(pc *parserCase, info specInfo) ([]string, []string) {
 			var cs []string
@@ -99,7 +107,7 @@ func init() {
 			return ds
 		},
 		alpha:  []string{"--a", "--s", "v", "--so", "--l", "c", "p", "-", "--zz", "--", "-az", "--d"},
-		depthQ: 4, depthT: 6,
+		depthQ: 5, depthT: 6,
 		facets: ph.AllFacets,
 		extra: func(pc *parserCase, info specInfo) ([]string, []string) {
 			if !info.inDomain || info.ex.Err || info.o.HasErr || len(info.ex.UnspecVals) > 0 {
